@@ -157,6 +157,19 @@ Theorem C12_http_never_5xx : forall semver marshal cfg m method declared size_ok
 Proof. exact http_never_5xx. Qed.
 Print Assumptions C12_http_never_5xx.
 
+(* Malformed framing below the HTTP client API (broken chunk sizes, missing
+   CRLF, over-wide chunk lengths, bad trailers; framing_ok = false): the
+   request is no report - 4xx, bucket unchanged, never 5xx; with sound framing
+   the answer is the one above. *)
+Theorem C12_wire_framing : forall semver marshal cfg m method declared framing_ok size_ok decoded,
+  upload_store m ->
+  (forall r, decoded = Some r -> g_string (r_xs r) = true) ->
+  handle_wire semver marshal cfg method declared framing_ok size_ok decoded m =
+    expected_wire semver marshal cfg method framing_ok size_ok decoded m /\
+  fst (handle_wire semver marshal cfg method declared framing_ok size_ok decoded m) <> S5xx.
+Proof. exact wire_expected. Qed.
+Print Assumptions C12_wire_framing.
+
 (* all request sequences on a bucket that starts as an upload store *)
 Theorem C12_all_request_sequences : forall semver marshal cfg qs m,
   upload_store m -> Forall good_request qs ->
